@@ -195,5 +195,37 @@ def run_ws():
     return res
 
 
+def run_summ():
+    """the static tie of the usage summaries: translate_summ.py regenerates GeneratedSumm.lean from `_summarize_nameplate_usage`
+    and `_summarize_mailbox`; Wormhole/Tie/Summ.lean proves them equal to `summarizeNameplate` / `summarizeMailbox` of Core.lean"""
+    import translate_summ
+    spec = json.load(open(os.path.join(LEAN, "theorems.json")))["SUMMTIE"]
+    res = {"status": "tied", "theorems": len(spec["theorems"]), "discharged": 0, "detail": ""}
+    with open(os.path.join(LEAN, ".lake", "verif-build.lock"), "w") as lk:
+        fcntl.flock(lk, fcntl.LOCK_EX)
+        info = translate_summ.main()
+        if "error" in info:
+            res.update(status="untranslatable", detail=info["error"])
+            return res
+        res["functions_translated"] = info["functions"]
+        key = _cache_key(translate_summ.OUT, ["PySum.lean", "Core.lean"])
+        hit = _cache_get("summ", key)
+        if hit is not None:
+            hit["cached"] = True
+            return hit
+        ok, log = _lake(spec["modules"][0])
+        if not ok:
+            res["status"] = "broken"
+            res["detail"] = " | ".join([l for l in log.splitlines() if l.startswith("error")][:4])[-1000:]
+            _cache_put("summ", key, res)
+            return res
+        res["discharged"], bad = _audit(spec["modules"], spec["theorems"], "SUMMTIE")
+        if bad:
+            res["status"] = "broken"
+            res["detail"] = "axioms: %s" % json.dumps(bad)[:600]
+        _cache_put("summ", key, res)
+    return res
+
+
 if __name__ == "__main__":
-    print(json.dumps({"sql": run(), "ws": run_ws()}, indent=1))
+    print(json.dumps({"sql": run(), "ws": run_ws(), "summ": run_summ()}, indent=1))
